@@ -1,7 +1,7 @@
 (* C14 - the property theorems, nothing else.  Each is closed by [exact] of a lemma proved in coq/Persist/*Proofs.v
    and followed by Print Assumptions. *)
 From Icv Require Import Base.Tac Persist.PsValue Persist.PsModel Persist.PsValueProofs
-  Persist.PsAtomicProofs Persist.PsRestoreProofs Persist.PsRoundtripProofs Persist.PsStateProofs Persist.PsModattrProofs Persist.PsFrameProofs Persist.PsSeqProofs Persist.PsSpineProofs.
+  Persist.PsAtomicProofs Persist.PsRestoreProofs Persist.PsRoundtripProofs Persist.PsStateProofs Persist.PsModattrProofs Persist.PsFrameProofs Persist.PsSeqProofs Persist.PsSpineProofs Persist.PsReloadProofs Persist.PsHistoryProofs.
 From Coq Require Import NArith.
 Local Open Scope N_scope.
 
@@ -184,6 +184,68 @@ Theorem C14_modattr_roundtrip : forall fe cur base ver now,
 Proof. exact ps_modattr_roundtrip. Qed.
 Print Assumptions C14_modattr_roundtrip.
 
+(* the same for NESTED dotted keys.  [cur]: any object reached from the configured object o0 by a history of
+   modify/restore calls on pairwise incomparable paths P in which no modify met a dictionary ([ps_reload_inv], shown to
+   be an invariant of every such history by ps_reload_run - this is where "no dict->scalar replacement" and the
+   overlap signature enter).  [ps_listed_ok] for every listed key: its current value survives the writer (<= 6
+   fractional digits, C14_modattr_six_decimals), the configuration has no scalar on the way to the key, and a
+   top-level value is of its field's type.  Then: the dump succeeds, the replay on o0 succeeds, every path of P and
+   every path incomparable with P reads as before the restart, original_attributes has the same entries, the version
+   is restored; with nothing listed the script is empty and the replay is the identity. *)
+Theorem C14_modattr_roundtrip_nested : forall fe P o0,
+  (forall p p', In p P -> In p' P -> p <> p' -> ps_incomp p p') ->
+  (forall p, In p P -> ps_cfg_field fe p) ->
+  (forall p, In p P -> forall fi, ps_filookup fe (ps_field_of p) = Some fi -> ps_fi_nomod fi = false) ->
+  (forall p, In p P -> forall fi, ps_filookup fe (ps_field_of p) = Some fi -> ps_coerce fi (ps_get_attr p o0) = ps_get_attr p o0) ->
+  forall cur, ps_reload_inv P o0 cur ->
+  forall now, (forall k x, In (k, x) (ps_orig_dict cur) -> ps_listed_ok fe o0 cur k) ->
+  forall ver, ps_orig_dict o0 = [] ->
+  exists script r,
+    ps_dump_modattrs cur = Some script /\ ps_replay_modattrs fe script ver now o0 = (true, r) /\
+    (forall p, In p P -> ps_get_attr p r = ps_get_attr p cur) /\
+    (forall q, (forall p, In p P -> ps_incomp p q) -> ps_get_attr q r = ps_get_attr q cur) /\
+    (forall k x, In (k, x) (ps_orig_dict r) <-> In (k, x) (ps_orig_dict cur)) /\
+    (ps_orig_dict cur <> [] -> ps_m_version r = ver) /\
+    (ps_orig_dict cur = [] -> script = [] /\ r = o0).
+Proof. exact ps_reload_roundtrip. Qed.
+Print Assumptions C14_modattr_roundtrip_nested.
+
+(* [ps_reload_inv] holds after every history of the admitted kind *)
+Theorem C14_reload_inv_reachable : forall fe P o0,
+  (forall p p', In p P -> In p' P -> p <> p' -> ps_incomp p p') ->
+  (forall p, In p P -> ps_cfg_field fe p) ->
+  (forall p, In p P -> forall fi, ps_filookup fe (ps_field_of p) = Some fi -> ps_coerce fi (ps_get_attr p o0) = ps_get_attr p o0) ->
+  forall h o, ps_reload_inv P o0 o -> ps_hist_ok fe P o h -> ps_reload_inv P o0 (ps_run fe o h).
+Proof. exact ps_reload_run. Qed.
+Print Assumptions C14_reload_inv_reachable.
+
+(* HISTORIES WITH DUMP AS AN OPERATION: the state is the object plus the script in modified-attributes.conf.  After any
+   history of modify / restore / dump operations of the admitted kind, either nothing was ever dumped and there is no
+   file, or the file holds exactly the script of the LAST dump (H = H1 ++ dump :: H2 with no dump in H2), and replaying
+   it on the configured object yields the values the object had at that dump; if everything had been restored before
+   that dump the script is EMPTY and the replay changes nothing (a stale file from an earlier dump cannot survive). *)
+Theorem C14_history_reload : forall fe P o0,
+  (forall p p', In p P -> In p' P -> p <> p' -> ps_incomp p p') ->
+  (forall p, In p P -> ps_cfg_field fe p) ->
+  (forall p, In p P -> forall fi, ps_filookup fe (ps_field_of p) = Some fi -> ps_fi_nomod fi = false) ->
+  (forall p, In p P -> forall fi, ps_filookup fe (ps_field_of p) = Some fi -> ps_coerce fi (ps_get_attr p o0) = ps_get_attr p o0) ->
+  forall H ver now,
+  ps_orig_dict o0 = [] -> ps_hhist_ok fe P o0 o0 H ->
+  match snd (ps_hrun fe (o0, None) H) with
+  | None => forallb (fun h => negb (ps_is_dump h)) H = true
+  | Some script =>
+    exists H1 H2, H = H1 ++ PsHDump :: H2 /\ forallb (fun h => negb (ps_is_dump h)) H2 = true /\
+      let od := fst (ps_hrun fe (o0, None) H1) in
+      ps_dump_modattrs od = Some script /\
+      exists r, ps_replay_modattrs fe script ver now o0 = (true, r) /\
+        (forall p, In p P -> ps_get_attr p r = ps_get_attr p od) /\
+        (forall q, (forall p, In p P -> ps_incomp p q) -> ps_get_attr q r = ps_get_attr q od) /\
+        (forall k x, In (k, x) (ps_orig_dict r) <-> In (k, x) (ps_orig_dict od)) /\
+        (ps_orig_dict od = [] -> script = [] /\ r = o0)
+  end.
+Proof. exact ps_history_reload. Qed.
+Print Assumptions C14_history_reload.
+
 (* values all of whose numbers have at most six fractional digits (any nesting of arrays and dictionaries) come back
    unchanged from ConfigWriter::EmitNumber + lexer *)
 Theorem C14_modattr_six_decimals : forall v, ps_six v = true -> ps_writer_codec v = v.
@@ -233,6 +295,13 @@ Example C14_restore_sequence_nonvacuous :
   ps_dget [118; 97; 114; 115] (ps_m_fields (ps_run ps_q_fe (ps_run ps_q_fe ps_q_o0 ps_q_h) (ps_restores ps_q_rs)))
     = PsDict [([97], PsNum 5 0); ([98], PsDict [([99], PsEmpty); ([100], PsBool true)]); ([120], PsDict [([121], PsEmpty)])].
 Proof. exact ps_restore_sequence_nonvacuous. Qed.
+
+Example C14_history_nonvacuous :
+  ps_hhist_ok ps_q_fe ps_q_P ps_q_o0 ps_q_o0 ps_y_H /\
+  snd (ps_hrun ps_q_fe (ps_q_o0, None) (firstn 4 ps_y_H))
+    = Some [(ps_q_n, PsStr [121]); (ps_q_a, PsNum 123456 6); (ps_q_bc, PsDict [([107], PsStr [118])])] /\
+  snd (ps_hrun ps_q_fe (ps_q_o0, None) ps_y_H) = Some [].
+Proof. exact ps_history_reload_nonvacuous. Qed.
 
 Example C14_modattr_nonvacuous :
   ps_orig_dict ps_r_base = [] /\
